@@ -33,19 +33,20 @@ import (
 // Options selects the configuration of a replica. The zero value is the shipped configuration
 // (simple ledger, serial executor, serial proofs, audit on, gas price 50000, chain id 1356).
 type Options struct {
-	ProofType   string // "serial" (default) | "parallel"
-	NoAudit     bool
-	GasPrice    int64 // default 50000; -1 = 0
-	NumAdmins   int   // default 4 (all weight 2)
-	Strategy    string
-	ChainID     uint64
-	CacheSizes  [3]int // if non-zero: NewAccountCacheSized
-	Watchdog    time.Duration
-	GenesisBal  string
-	LogToStderr bool
-	NoRouter    bool // do not feed executed blocks to the router monitor
-	RootMon     bool // compare every block's state-store changes with its journal / state root (rootmon.go)
-	ReaderMon   bool // a concurrent reader polls the chain ledger while blocks are executed and persisted
+	ProofType      string // "serial" (default) | "parallel"
+	NoAudit        bool
+	GasPrice       int64 // default 50000; -1 = 0
+	NumAdmins      int   // default 4 (all weight 2)
+	OrdinaryAdmins int   // the last so many genesis admins have weight 1 (ordinary admins)
+	Strategy       string
+	ChainID        uint64
+	CacheSizes     [3]int // if non-zero: NewAccountCacheSized
+	Watchdog       time.Duration
+	GenesisBal     string
+	LogToStderr    bool
+	NoRouter       bool // do not feed executed blocks to the router monitor
+	RootMon        bool // compare every block's state-store changes with its journal / state root (rootmon.go)
+	ReaderMon      bool // a concurrent reader polls the chain ledger while blocks are executed and persisted
 }
 
 // Key is a deterministic secp256k1 account.
@@ -186,7 +187,11 @@ func BuildConfig(o Options) *repo.Config {
 	cfg.Genesis.Balance = o.GenesisBal
 	cfg.Genesis.Admins = nil
 	for i := 0; i < o.NumAdmins; i++ {
-		cfg.Genesis.Admins = append(cfg.Genesis.Admins, &repo.Admin{Address: AdminKey(i).Addr.String(), Weight: 2})
+		wt := uint64(2)
+		if i >= o.NumAdmins-o.OrdinaryAdmins && i > 0 {
+			wt = 1 // an ordinary governance admin; admin 0 is always a super admin
+		}
+		cfg.Genesis.Admins = append(cfg.Genesis.Admins, &repo.Admin{Address: AdminKey(i).Addr.String(), Weight: wt})
 	}
 	cfg.Genesis.Strategy = nil
 	for _, m := range []string{"appchain_mgr", "proposal_strategy_mgr", "rule_mgr", "node_mgr", "service_mgr", "role_mgr", "dapp_mgr"} {
